@@ -59,6 +59,10 @@ CHECKS = {
             "Rings of 1..4 real stations (staged joins, leaves, slaves that answer status polls inside the GAPs) and single stations against the (mostly polite) adversary: every own FDL status request must target the open interval (TS,NS) below HSA as it is at that moment; one per token visit except the complete contiguous scan after a claim; >= G token visits between sweeps; every GAP address polled within gap size + G + 3 visits; a ready/in-ring answer makes the replier the destination of the next token. Status replies of real stations: only to a request addressed to them that they consumed last, to the requester, within the slot time when the bus stays silent; 'ready' only after two identical witnessed rotations (R3 model over the consumed token passes) and only to the predecessor, 'in ring' only if in the ring before, not 'not ready' when in the ring or after three identical rotations when asked by the predecessor.",
             "Trusted: R3/R4 models, consumption log; visit / sweep accounting restarts after collisions, garbage or tokens offered while holding (rules are judged in calm periods).",
             "deterministic simulation (real rings and adversarial peer); GAP model and status-reply model as oracles"),
+    "C05": ("adv+dp+ring", "fault_enumeration", "6 C05",
+            "Everything at once, with a logger that formats every record at Trace and debug assertions / overflow checks on: the adversary node (all telegram shapes, own address, addresses > 125, garbage, truncated and concatenated frames) against a station alone or with DpMaster (0..3 peripherals), LiveList, DpScanner and traffic applications through poll()/poll_multi(); DP worlds with storms, Byzantine slaves (every reply shape incl. malformed extended diagnostics), power cycles, user calls; faulty rings with crashes, stalls, clock jumps in both directions, stale RX bytes, early-TX-done PHY, noise. Oracle: no panic (message + location), no hang (worker watchdog, re-check alone with 3x limit), PHY contract honoured.",
+            "Trusted: catch_unwind + panic hook, wall-clock watchdog of the driver. Not generated: set_passive/enter_stop/enter_clear (todo!()), parameter values the builder rejects, changing the application list while online (DESIGN 5.7). Known finding F12 (reset_address with a request in flight) is generated in the thorough tier only.",
+            "deterministic simulation with fault injection; panic / hang / PHY-contract oracle"),
 }
 
 PENDING = ["C03", "C04", "C05", "C06", "C07", "C08", "C10", "C11", "C12", "C13", "C14", "C15", "C16", "C18"]
